@@ -78,7 +78,10 @@ class ScriptConn(refdc.Conn):
                 with_tok = act[2] if act[0] == "ack" else True
                 res = [((vec[i] if i < 2 else 2), 0, rpc.NDR64 if (vec[i] if i < 2 else 2) == 0 else refdc.NIL) for i in range(len(d["contexts"]))]
                 self.ack_no += 1
-                tok = b"S-TOK-%d" % self.ack_no if with_tok else None
+                # token shapes a real mechanism produces: trailing NUL octets (NTLM CHALLENGE ends in MsvAvEOL, SPNEGO accept-completed in 0x00),
+                # leading NUL, trailing blank, 0xFF ends - the client must relay every octet
+                shape = (b"S-TOK-%d\x00\x00\x00\x00", b"\x00S-TOK-%d\xff", b"S-TOK-%d \x00", b"\xa1\x07\x30\x05\xa0\x03\x0a\x01\x00%d")[self.ack_no % 4]
+                tok = shape % self.ack_no if with_tok else None
                 self.slog["server_tokens"].append(tok)
                 if act[0] == "ack":
                     self.slog["ack_sign_flags"].append(sflag)
